@@ -60,6 +60,23 @@ def engine(E):
     Bn['any'] = _any_all('any')
     Bn['all'] = _any_all('all')
 
+    def _dedup(name):
+        def fn(E_, a, k):
+            """dict.fromkeys(xs) / set(xs) / frozenset(xs): hashes every element (a result may be unhashable: a list,
+            a dict -> TypeError) and keeps ONE of each class of equal elements (two awaitables may well fail with
+            equal, or the very same, exception object) -- some other sequence, not longer than xs"""
+            if a and isinstance(a[0], VSeq):
+                if E.choose([('all_hashable', None), ('an_unhashable_result', None)], name) != 'all_hashable':
+                    E.throw('TypeError', origin=name)
+                new = E.fresh('distinct_outcomes', VS)
+                E.assume(z3.Length(new) <= z3.Length(a[0].t))
+                return VSeq(new, a[0].wrap)
+            raise Unsupported('%s(%r)' % (name, a))
+        return VStub(name, fn)
+    Bn['dict'] = VNamespace('dict', dict(fromkeys=_dedup('dict.fromkeys')))
+    Bn['set'] = _dedup('set')
+    Bn['frozenset'] = _dedup('frozenset')
+
     def _map(E_, a, k):
         """map(f, aws): lazy; only create_task / ensure_future over the given awaitables is understood"""
         if len(a) == 2 and isinstance(a[0], VStub) and a[0].name in ('asyncio.create_task', 'asyncio.ensure_future') \
